@@ -208,6 +208,15 @@ def gen_random(ctx, n):
                 a, b = tuple(a), tuple(b)
             t1, t2 = V.plant(rng, rng.choice([0, 0, 1, 2]), (a, b))
             ctx.count("gen:atom_list_edit")
+        elif r < 0.45:
+            # exactly one container re-typed with identical items (set<->frozenset, list<->tuple): Python's == may not see it
+            t1 = V.gen_value(rng, depth=rng.choice([2, 3]), width=4, kinds="LLDSF")
+            t2, k = t1, None
+            for _ in range(8):
+                t2, k = V.edit(rng, t1, kinds=["retype_equal"])
+                if k:
+                    break
+            ctx.count("gen:single_retype" if k else "gen:single_retype_failed")
         elif r < 0.85:
             t1 = V.gen_value(rng, depth=rng.choice([2, 3, 4]), width=4, alias=rng.random() < 0.1)
             vals, kinds = V.edit_script(rng, t1, rng.randint(1, 3), alias=False)
